@@ -196,6 +196,12 @@ var targets = []target{
 		free: map[string][]string{"c.compressData": nil},
 		oracles: map[string]string{"internal.AlphabetNumeric.Uint32()": "maskNum"},
 		doc: "genFrame for a payload given as its bytes: the checks, the padded buffer, header back-fill and masking of an uncompressed frame; compressData is left uninterpreted"},
+	{pkg: "gws", fn: "workerQueue.getJob", lean: "workerQueue_getJob",
+		skip: []string{"c.mu.Lock()", "defer c.mu.Unlock()"},
+		doc:  "the critical section of getJob (that it IS one Lock/defer Unlock region is the fact getJobLocks); jobs are numbers, the deque is the list of queued jobs"},
+	{pkg: "gws", fn: "limitedReader.Read", lean: "limitedReader_Read",
+		oracles: map[string]string{"c.R.Read(p)": "srcRead"},
+		doc:     "the counting reader in front of the inflater; what the source's Read returned is an input"},
 	{pkg: "gws", fn: "PermessageDeflate.setThreshold", lean: "PermessageDeflate_setThreshold"},
 	{pkg: "gws", fn: "initServerOption", lean: "initServerOption_limits",
 		from: "if c.ReadMaxPayloadSize <= 0", to: "if c.Authorize == nil",
@@ -259,8 +265,8 @@ func (tr *translator) leanType(t types.Type) (string, bool) {
 			return "UInt32", true
 		case types.Uint64:
 			return "UInt64", true
-		case types.Int, types.UntypedInt:
-			return "Int", true
+		case types.Int, types.UntypedInt, types.Int32, types.Int64:
+			return "Int", true // signed integers are unbounded here: the targets never rely on their overflow
 		}
 	case *types.Slice:
 		if b, ok := u.Elem().Underlying().(*types.Basic); ok && b.Kind() == types.Uint8 {
@@ -284,8 +290,24 @@ func (tr *translator) leanType(t types.Type) (string, bool) {
 		if isBuffer(t) {
 			return "(List UInt8)", true
 		}
+		if isJobDeque(t) {
+			return "(List Nat)", true
+		}
+	case *types.Signature:
+		if n, ok := t.(*types.Named); ok && n.Obj().Name() == "asyncJob" {
+			return "(Option Nat)", true // a job is identified by a number; nil is none
+		}
 	}
 	return "", false
+}
+
+// internal.Deque[asyncJob] used through PushBack/PopFront: the list of queued job ids (C20: the deque is a sequence)
+func isJobDeque(t types.Type) bool {
+	if pt, ok := t.(*types.Pointer); ok {
+		t = pt.Elem()
+	}
+	n, ok := t.(*types.Named)
+	return ok && n.Obj().Name() == "Deque" && strings.Contains(t.String(), "asyncJob")
 }
 
 // *bytes.Buffer / bytes.Buffer: a value holding the unread bytes
@@ -377,7 +399,7 @@ func (f *fn) pathOf(e ast.Expr) (string, bool) {
 			if pt, ok := t.Underlying().(*types.Pointer); ok {
 				t = pt.Elem()
 			}
-			if _, ok := t.Underlying().(*types.Struct); ok && !isBuffer(t) {
+			if _, ok := t.Underlying().(*types.Struct); ok && !isBuffer(t) && !isJobDeque(t) {
 				return v.Name, true
 			}
 		}
@@ -608,7 +630,7 @@ func (f *fn) binary(v *ast.BinaryExpr) string {
 	lt := f.lt(v.X)
 	x := f.expr(v.X)
 	// error comparisons: `err != nil`
-	if lt == "(Option GoErr)" {
+	if strings.HasPrefix(lt, "(Option ") {
 		y := f.expr(v.Y)
 		switch v.Op {
 		case token.NEQ:
@@ -772,6 +794,13 @@ func (f *fn) call(c *ast.CallExpr) string {
 	// bytes.Buffer values, the buffer pool, payloads
 	if sel, ok := c.Fun.(*ast.SelectorExpr); ok {
 		rt := f.typeOf(sel.X)
+		if rt != nil && isJobDeque(rt) && sel.Sel.Name == "PopFront" {
+			q := f.lvalueName(sel.X)
+			f.tmp++
+			tmp := fmt.Sprintf("r%d", f.tmp)
+			f.pre = append(f.pre, fmt.Sprintf("let %s := %s.head?", tmp, q), fmt.Sprintf("let %s := %s.tail", q, q))
+			return tmp
+		}
 		if rt != nil && isBuffer(rt) {
 			switch sel.Sel.Name {
 			case "Len":
@@ -1009,6 +1038,13 @@ func (f *fn) assigned(n ast.Node) []string {
 		}
 	}
 	ast.Inspect(n, func(x ast.Node) bool {
+		if c, ok := x.(*ast.CallExpr); ok {
+			if sel, ok := c.Fun.(*ast.SelectorExpr); ok && sel.Sel.Name == "PopFront" {
+				if rt := f.typeOf(sel.X); rt != nil && isJobDeque(rt) {
+					note(sel.X)
+				}
+			}
+		}
 		switch s := x.(type) {
 		case *ast.AssignStmt:
 			if len(s.Rhs) == 1 {
@@ -1056,6 +1092,9 @@ func (f *fn) assigned(n ast.Node) []string {
 							case "Write", "Reset", "Next", "Truncate":
 								note(sel.X)
 							}
+						}
+						if rt := f.typeOf(sel.X); rt != nil && isJobDeque(rt) && sel.Sel.Name == "PushBack" {
+							note(sel.X)
 						}
 						if s2, ok := f.p.info.Selections[sel]; ok && s2.Kind() == types.MethodVal {
 							if r, ok := f.tr.byFunc[funcKey(s2.Obj().(*types.Func))]; ok && len(f.tr.translate(r).state) > 0 {
@@ -1113,6 +1152,9 @@ func (f *fn) block(list []ast.Stmt, k cont) string {
 		if strings.HasPrefix(f.stmtText(s), sk) {
 			return next()
 		}
+	}
+	if _, ok := s.(*ast.DeferStmt); ok {
+		f.bad(s, "defer")
 	}
 	// `*(*[]byte)(unsafe.Pointer(buf)) = p` (internal.BufferReset inlined): the buffer now holds exactly p
 	if as, ok := s.(*ast.AssignStmt); ok && len(as.Lhs) == 1 && strings.HasPrefix(strings.Join(strings.Fields(f.src(as.Lhs[0])), ""), "*(*[]byte)(unsafe.Pointer(") {
@@ -1340,6 +1382,14 @@ func (f *fn) block(list []ast.Stmt, k cont) string {
 		if text == "binaryPool.Put" {
 			return next()
 		}
+		if sel, ok := c.Fun.(*ast.SelectorExpr); ok && sel.Sel.Name == "PushBack" {
+			if rt := f.typeOf(sel.X); rt != nil && isJobDeque(rt) {
+				q := f.lvalueName(sel.X)
+				v := f.expr(c.Args[0])
+				f.flush(&sb)
+				return sb.String() + fmt.Sprintf("let %s := %s ++ (%s).toList\n", q, q, v) + next()
+			}
+		}
 		_ = f.call(c) // a state-threading method: the rebinding is in f.pre
 		if len(f.pre) == 0 {
 			f.bad(s, "call statement without an effect the translation knows")
@@ -1416,6 +1466,18 @@ func (f *fn) tupleCall(st *ast.AssignStmt) (string, bool) {
 				b := f.lvalueName(c.Args[0])
 				return fmt.Sprintf("let %s := %s ++ %s", b, b, f.expr(sel.X)), true
 			}
+		}
+	}
+	// a call whose two results are an input of the target
+	ctext := strings.Join(strings.Fields(f.src(c)), "")
+	for src, pname := range f.t.oracles {
+		if strings.Join(strings.Fields(src), "") == ctext {
+			lt := "(" + f.lt(st.Lhs[0]) + " × " + f.lt(st.Lhs[1]) + ")"
+			if _, seen := f.oracleSet[pname]; !seen {
+				f.oracleSet[pname] = lt
+				f.oracleOrd = append(f.oracleOrd, pname)
+			}
+			return fmt.Sprintf("let (%s, %s) := %s", f.lvalueName(st.Lhs[0]), f.lvalueName(st.Lhs[1]), pname), true
 		}
 	}
 	// a translated function with two results (possibly threading its receiver)
